@@ -244,7 +244,7 @@ def _run(di, case, res):
         if programs.Monitors.snapshot(df) != snap:
             res.violate(f"{cls}.to_string:mutated-object", ctx)
         if ok:
-            labels = ["string" if canon.dtype_kind(v) == "string" else str(np.asarray(v).dtype) for v in dict.values(df)]
+            labels = [str(v.dtype_label) for v in dict.values(df)]      # the library's own public label of each column
             max_rows = opts.get("max_rows") or settings.get("PRINT_MAX_ROWS") or di.PRINT_MAX_ROWS
             _parse_frame(res, s, names, labels, nrow, max_rows, ctx)
         res.count("renderings")
